@@ -129,16 +129,25 @@ fn simplify_event(input: &PartialDSym, ptc: bool, same_group: bool, nvariants: u
         }
         Err(m) => { e["panic"] = json!(m); }
     }
-    let mut vs = vec![];
-    for _ in 0..nvariants {
-        let t = renumber(input, &rand_perm(input.size(), rng));
-        let mut w = json!({});
-        match run(&t) { Ok((o, key)) => { w["some"] = json!(o.is_some()); w["key"] = json!(key); } Err(m) => { w["panic"] = json!(m); } }
-        vs.push(w);
-    }
-    e["variants"] = json!(vs);
+    // variants: random renumberings and plain repetitions of the same call (simplify() iterates over std hash sets,
+    // so even the identical input can take different paths); computed in parallel, recorded in order
+    let mut inputs: Vec<(String, PartialDSym)> = vec![];
+    for _ in 0..nvariants { inputs.push(("renumber".into(), renumber(input, &rand_perm(input.size(), rng)))); }
+    for _ in 0..repeats() { inputs.push(("repeat".into(), input.clone())); }
+    let results: Vec<Value> = std::thread::scope(|sc| {
+        let hs: Vec<_> = inputs.chunks(((inputs.len() + 7) / 8).max(1)).map(|ch| sc.spawn(move || ch.iter().map(|(how, t)| {
+            let mut w = json!({"how": how});
+            match run(t) { Ok((o, key)) => { w["some"] = json!(o.is_some()); w["key"] = json!(key); } Err(m) => { w["panic"] = json!(m); } }
+            w
+        }).collect::<Vec<_>>())).collect();
+        hs.into_iter().flat_map(|h| h.join().unwrap()).collect()
+    });
+    e["variants"] = json!(results);
     e
 }
+
+static REPEATS: std::sync::atomic::AtomicUsize = std::sync::atomic::AtomicUsize::new(0);
+fn repeats() -> usize { REPEATS.load(std::sync::atomic::Ordering::Relaxed) }
 
 pub fn drive_c16(args: &[String]) {
     let out = arg(args, "--out").unwrap();
@@ -146,10 +155,22 @@ pub fn drive_c16(args: &[String]) {
     let sample = arg_usize(args, "--permille", 1000);
     let mut sink = Sink::create(&out);
     let mut rng = rng(16);
-    // (a) pseudo-toroidal covers of the corpus (same group guaranteed; key invariant under renumbering)
-    for s in corpus3d() {
-        if let Ok(Some(c)) = catch(|| pseudo_toroidal_cover(&s)) { sink.emit(simplify_event(&c, true, true, 2, &mut rng, "ptc of corpus")); }
+    // (a) pseudo-toroidal covers of the corpus and of the duals of its symbols (3-tori: same group guaranteed, the key is
+    // the same for every numbering and every repetition), then the recorded regression inputs (3-tori as well)
+    let nvar = arg_usize(args, "--variants", 4);
+    let nrep = arg_usize(args, "--repeats", 3);
+    for s in corpus3d().into_iter().flat_map(|s| { let d = dual(&s); [s, d] }) {
+        REPEATS.store(nrep, std::sync::atomic::Ordering::Relaxed);
+        if let Ok(Some(c)) = catch(|| pseudo_toroidal_cover(&s)) { sink.emit(simplify_event(&c, true, true, nvar, &mut rng, "ptc of corpus")); }
     }
+    if let Some(path) = arg(args, "--regress") {
+        for ln in std::fs::read_to_string(&path).unwrap().lines().filter(|l| !l.starts_with('#') && !l.trim().is_empty()) {
+            REPEATS.store(4 * nrep, std::sync::atomic::Ordering::Relaxed);
+            let c: PartialDSym = ln.trim().parse().unwrap();
+            sink.emit(simplify_event(&c, true, true, nvar, &mut rng, "ptc of corpus"));
+        }
+    }
+    REPEATS.store(0, std::sync::atomic::Ordering::Relaxed);
     // (b) pseudo-toroidal covers of the domain symbols that have one
     for n in 1..=max3 {
         for s in domain3d(n) {
